@@ -92,9 +92,106 @@ struct C02Monitor {
     /// last observed publication: their certificates were legitimately
     /// unpublished in between.
     suspended_since_pub: BTreeSet<(String, String)>,
+    /// issuance monitor: (issuer, ski, serial) of child certificates seen in
+    /// the issuers' own object stores, with their resources
+    issued_seen: BTreeMap<(String, String, String), ResourceSet>,
+    /// (issuer, child) -> entitlement at the previous observation
+    prev_ent: BTreeMap<(String, String), ResourceSet>,
+    /// issuer -> (key id -> certified resources) at the previous observation
+    prev_held: BTreeMap<String, BTreeMap<String, ResourceSet>>,
 }
 
 impl C02Monitor {
+    /// First clause of the statement, judged at the instant of issuance: a
+    /// child certificate that appears in the issuer's object store (i.e.
+    /// was issued by the single operation or task since the previous
+    /// observation) carries exactly entitlement x issuing key's resources,
+    /// taking either the value before or after that step for both. When the
+    /// issuing key's own certificate changed in that step (or the issuing
+    /// key is a different one: activation), "the part both still hold" of
+    /// the replaced certificate is accepted as well.
+    fn check_issuance(&mut self, w: &World, r: &mut Report) -> Vec<Issue> {
+        let mut issues = vec![];
+        let cas = w.ca_handles();
+        for issuer in cas.iter().filter(|c| c.as_str() != "ta") {
+            let (held_map, _) = held(w, issuer);
+            let children = Self::children_of(w, issuer);
+            let mut ent_now: BTreeMap<String, ResourceSet> = BTreeMap::new();
+            let mut keys_of: BTreeMap<String, BTreeSet<String>> = BTreeMap::new();
+            for ch in &children {
+                if let Ok(info) = w.krill.ca_manager().ca_show_child(
+                    &h(issuer), &h(ch).convert()
+                ) {
+                    ent_now.insert(ch.clone(), info.entitled_resources.clone());
+                }
+                keys_of.insert(ch.clone(), all_keys(w, ch));
+            }
+            let prev_held = self.prev_held.get(issuer.as_str()).cloned()
+                .unwrap_or_default();
+            let certs = oracle::stored_child_certs(w, issuer);
+            for c in &certs {
+                let id = (issuer.clone(), c.ski.clone(), c.serial.clone());
+                if self.issued_seen.contains_key(&id) { continue }
+                // a certificate issued since the previous observation
+                let child = keys_of.iter()
+                    .find(|(_, ks)| ks.contains(&c.ski)).map(|(n, _)| n.clone());
+                let Some(child) = child else {
+                    self.issued_seen.insert(id, c.resources.clone());
+                    continue
+                };
+                r.eval();
+                r.count("issuances_judged", 1);
+                let mut es: Vec<ResourceSet> = vec![];
+                if let Some(e) = ent_now.get(&child) { es.push(e.clone()) }
+                if let Some(e) = self.prev_ent.get(&(issuer.clone(), child.clone())) {
+                    es.push(e.clone())
+                }
+                let mut rs_: Vec<ResourceSet> = vec![];
+                if let Some(x) = held_map.get(&c.aki) { rs_.push(x.clone()) }
+                if let Some(x) = prev_held.get(&c.aki) { rs_.push(x.clone()) }
+                let issuer_changed = match (held_map.get(&c.aki), prev_held.get(&c.aki)) {
+                    (Some(a), Some(b)) => a != b,
+                    _ => true,
+                };
+                let mut ok = es.iter().any(|e| rs_.iter().any(|x| {
+                    e.intersection(x) == c.resources
+                }));
+                if !ok && issuer_changed {
+                    // the part the replaced certificate and the issuer's
+                    // new certificate both hold
+                    let prev_certs: Vec<&ResourceSet> = self.issued_seen.iter()
+                        .filter(|((i, ski, _), _)| i == issuer && *ski == c.ski)
+                        .map(|(_, res)| res).collect();
+                    ok = prev_certs.iter().any(|p| rs_.iter().any(|x| {
+                        p.intersection(x) == c.resources
+                    }));
+                }
+                if !ok && (es.is_empty() || rs_.is_empty()) { ok = true }
+                if !ok {
+                    issues.push((
+                        "issued-cert-not-entitlement-x-issuer".into(),
+                        format!("{issuer} issued {} to {child} with [{}]; \
+                                 entitlement (now/before) {:?}, issuing key \
+                                 {} holds (now/before) {:?}",
+                                c.name, c.resources,
+                                es.iter().map(|e| e.to_string()).collect::<Vec<_>>(),
+                                &c.aki[..8.min(c.aki.len())],
+                                rs_.iter().map(|e| e.to_string()).collect::<Vec<_>>()),
+                    ));
+                } else {
+                    r.nontrivial(format!("issued|{}|{}", es.first()
+                        .map(|e| e.to_string()).unwrap_or_default(), c.resources));
+                }
+                self.issued_seen.insert(id, c.resources.clone());
+            }
+            for (ch, e) in ent_now {
+                self.prev_ent.insert((issuer.clone(), ch), e);
+            }
+            self.prev_held.insert(issuer.clone(), held_map);
+        }
+        issues
+    }
+
     fn children_of(w: &World, issuer: &str) -> Vec<String> {
         w.krill.ca_manager().get_ca(&h(issuer)).map(|c| {
             c.as_ca_info().children.iter().map(|c| c.to_string()).collect()
@@ -411,6 +508,10 @@ impl C02Monitor {
                     ));
                     return false
                 }
+                if let Some(i) = self.check_issuance(w, r).into_iter().next() {
+                    issue = Some(i);
+                    return false
+                }
                 if let (Task::SyncRepo { ca_handle, .. }, Completion::Done)
                     = (&run.task, &run.completion)
                 {
@@ -481,14 +582,15 @@ impl Monitor for C02Monitor {
     fn after_task(
         &mut self, w: &mut World, run: &TaskRun, _ctx: &Ctx, r: &mut Report,
     ) -> Vec<Issue> {
+        let mut issues = self.check_issuance(w, r);
         if let (Task::SyncRepo { ca_handle, .. }, Completion::Done)
             = (&run.task, &run.completion)
         {
             if ca_handle.as_str() != "ta" {
-                return self.check_publication(w, ca_handle.as_str(), r)
+                issues.extend(self.check_publication(w, ca_handle.as_str(), r));
             }
         }
-        vec![]
+        issues
     }
 
     fn after_op(
@@ -507,15 +609,19 @@ impl Monitor for C02Monitor {
         if let (Op::ChildSuspend { parent, child }, Outcome::Ok) = (op, outcome) {
             self.suspended_since_pub.insert((parent.clone(), child.clone()));
         }
-        if ctx.in_setup && ctx.op_idx + 1 != ctx.n_setup { return vec![] }
+        let mut issues = self.check_issuance(w, r);
+        if ctx.in_setup && ctx.op_idx + 1 != ctx.n_setup { return issues }
         self.since_converge += 1;
         if self.since_converge >= self.converge_every
             || ctx.op_idx + 1 == ctx.total || ctx.op_idx + 1 == ctx.n_setup
         {
             self.since_converge = 0;
-            return self.converge_and_check(w, ctx, r)
+            issues.extend(self.converge_and_check(w, ctx, r));
+            // tasks run inside the convergence rounds are observed by
+            // after_task; bring the issuance monitor up to date
+            issues.extend(self.check_issuance(w, r));
         }
-        vec![]
+        issues
     }
 }
 
